@@ -59,6 +59,9 @@ MixProg(i) ==
         e == [RM(1, <<"h1">>, "error", IF i \in {1, 3} THEN other ELSE first, "none") EXCEPT !.name = "on_err"]
     IN [id |-> "PM" \o ToString(i), family |-> "data", methods |-> IF i \in {1, 3} THEN <<s, e>> ELSE <<e, s>>]
 
+LegacyProg(i) == [id |-> "L" \o ToString(i), family |-> "legacy",
+                  methods |-> << [RM(i, <<>>, "always", "raw", "none") EXCEPT !.name = "reply"] >>]
+
 CompiledProgs ==
     TLCEval(SetToSeq(
            {[TableProg(i) EXCEPT !.family = "compiled"] : i \in CompiledIdx}
@@ -66,7 +69,8 @@ CompiledProgs ==
                  i \in {j \in CompiledIdx : Len(TableSeq[j]) > 1}}
       \cup {DataProg(i) : i \in 1..Len(DataModes)}
       \cup {DataProgMerged(i, b) : i \in {1, 3, 5}, b \in BOOLEAN}
-      \cup {MixProg(i) : i \in 1..4}))
+      \cup {MixProg(i) : i \in 1..4}
+      \cup {LegacyProg(i) : i \in 1..2}))
 
 (* ------------------------------------------------------------ the machine *)
 Progs == CompiledProgs
@@ -97,6 +101,10 @@ HandlerRow(p, h) ==
      err  |-> IF ErrM(p, h) = 0 THEN "" ELSE p.methods[ErrM(p, h)].name,
      alw  |-> IF AlwM(p, h) = 0 THEN "" ELSE p.methods[AlwM(p, h)].name]
 StimOf(p) ==
+    IF Legacy(p)
+    THEN SetToSeq({[op |-> "reply", h |-> "?", recv |-> "", result |-> res, events |-> ev, class |-> c, val |-> 0] :
+                      res \in {"ok", "err"}, ev \in {0, 2}, c \in {"absent", "good"}})
+    ELSE
     SetToSeq(
          {[op |-> "build", h |-> h, recv |-> r, result |-> "", events |-> 0, class |-> "", val |-> 0] : h \in AllHandlers(p), r \in Recvs}
     \cup UNION {{[op |-> "reply", h |-> h, recv |-> "wasm", result |-> res, events |-> ev, class |-> c, val |-> IF ev = 0 THEN 0 ELSE 1] :
